@@ -292,6 +292,8 @@ def alphabet(u, n, max_items):
         seqs += [[items[-1], wrong[0]], [wrong[0], items[-1]]]
     for kind in ("extend", "iadd"):
         ops += [[kind, s] for s in seqs]
+        # the same from a ONE-SHOT iterable (a generator can be walked once only - as for a plain list.extend)
+        ops += [[kind, s, "gen"] for s in seqs if s]
     ops += [["add", s, "list"] for s in seqs] + [["add", s, "keyedlist"] for s in seqs[: 1 + len(items)]]
     ops += [["radd", s] for s in seqs]
     return ops
@@ -401,10 +403,12 @@ def apply_impl(l, op, u, pool):
         if name == "clear":
             return l.clear(), l
         if name == "extend":
-            return l.extend([A(x) for x in op[1]]), l
+            src = [A(x) for x in op[1]]
+            return l.extend(iter(src) if op[2:] == ["gen"] else src), l
         if name == "iadd":
             l2 = l
-            l2 += [A(x) for x in op[1]]
+            src = [A(x) for x in op[1]]
+            l2 += (x for x in src) if op[2:] == ["gen"] else src
             return None, l2
         if name == "add":
             operand = [A(x) for x in op[1]]
